@@ -147,6 +147,21 @@ func c02Docs(rng *rand.Rand, nRandom int) []c02Doc {
 		"properties": map[string]any{"north": bad, "south": bad, "east": bad, "west": bad}}}), ""})
 	docs = append(docs, c02Doc{"two schemas that normalise to one type name, twice over", holder(map[string]any{"foo_bar": map[string]any{"type": "object"}, "FooBar": map[string]any{"type": "object"},
 		"baz_qux": map[string]any{"type": "object"}, "BazQux": map[string]any{"type": "object"}}), ""})
+	// documents on which generation fails at ONE place: the error text must not depend on the run either (a text that
+	// prints a value of the loaded document by address differs from load to load)
+	strMap := map[string]any{"type": "object", "additionalProperties": map[string]any{"type": "string"}}
+	intMap := map[string]any{"type": "object", "additionalProperties": map[string]any{"type": "integer"}}
+	docs = append(docs, c02Doc{"allOf of two members with additional-properties schemas (rejected)", holder(map[string]any{"Labels": strMap, "Counters": intMap,
+		"Both": map[string]any{"allOf": []any{map[string]any{"$ref": "#/components/schemas/Labels"}, map[string]any{"$ref": "#/components/schemas/Counters"}}}}), ""})
+	docs = append(docs, c02Doc{"allOf of members that disagree on the type (rejected)", holder(map[string]any{"S": map[string]any{"type": "string"}, "N": map[string]any{"type": "integer"},
+		"Both": map[string]any{"allOf": []any{map[string]any{"$ref": "#/components/schemas/S"}, map[string]any{"$ref": "#/components/schemas/N"}}}}), ""})
+	docs = append(docs, c02Doc{"allOf of members that disagree on the format (rejected)", holder(map[string]any{"D": map[string]any{"type": "string", "format": "date"}, "U": map[string]any{"type": "string", "format": "uuid"},
+		"Both": map[string]any{"allOf": []any{map[string]any{"$ref": "#/components/schemas/D"}, map[string]any{"$ref": "#/components/schemas/U"}}}}), ""})
+	{
+		b, _ := json.Marshal(map[string]any{"openapi": "3.0.3", "info": map[string]any{"title": "bad", "version": "1"},
+			"paths": map[string]any{"/things/{id}": map[string]any{"get": map[string]any{"operationId": "getThing", "responses": map[string]any{"204": map[string]any{"description": "d"}}}}}})
+		docs = append(docs, c02Doc{"path variable without a parameter declaration (rejected)", b, ""})
+	}
 	for i := 0; i < nRandom; i++ {
 		d, _ := gendoc.Generate(rng, tameOpts())
 		docs = append(docs, c02Doc{fmt.Sprintf("random#%d", i), d.JSON(), ""})
@@ -327,7 +342,7 @@ func runC02(r *Report, rng *rand.Rand, thorough bool) {
 			}
 		}
 	}
-	r.Rule = fmt.Sprintf("each (document, configuration, skip-fmt) generated %d+ times in one process (every second time after a generation of the same document under another configuration: name normaliser, suffix and client type name, import mapping; three times from one loaded document value), in fresh processes (fresh hash seeds) and from %d random permutations of every JSON object's members; all outputs (or error strings) must be byte-identical; documents: one wide document with >= 3 entries in every map the generator walks (paths, operations, properties, content types, responses, headers, import mappings, discriminator mappings, x-go-type imports, encodings, security requirements, extensions; sibling property names that differ only in letter case), its variants with known order dependences, three documents on which generation fails at several places at once (the error text must be identical), and random documents; non-trivial = generation succeeds", kIn+1, kPerm)
+	r.Rule = fmt.Sprintf("each (document, configuration, skip-fmt) generated %d+ times in one process (every second time after a generation of the same document under another configuration: name normaliser, suffix and client type name, import mapping; three times from one loaded document value), in fresh processes (fresh hash seeds) and from %d random permutations of every JSON object's members; all outputs (or error strings) must be byte-identical; documents: one wide document with >= 3 entries in every map the generator walks (paths, operations, properties, content types, responses, headers, import mappings, discriminator mappings, x-go-type imports, encodings, security requirements, extensions; sibling property names that differ only in letter case), its variants with known order dependences, three documents on which generation fails at several places at once and four on which it fails at one place (the error text must be identical from load to load and from process to process), and random documents; non-trivial = generation succeeds", kIn+1, kPerm)
 }
 
 func onlyImportOrderDiffers(outs map[string]int) bool {
